@@ -59,6 +59,10 @@ def mk_policy(p):
     pol._dh_modulus_sizes = copy.deepcopy(p.get('dh_modulus_sizes'))
     pol._allow_algorithm_subset_and_reordering = p.get('subset', False)
     pol._allow_larger_keys = p.get('larger', False)
+    # client policies are evaluated by the same rules (a third of the policies built here are, chosen by a hash of the policy so that a replay rebuilds the same one)
+    import hashlib
+    import json as _json
+    pol._server_policy = p.get('server_policy', hashlib.sha1(_json.dumps(p, sort_keys=True, default=str).encode()).digest()[0] % 3 != 0)
     pol._normalize_hostkey_sizes()
     return pol
 
@@ -70,7 +74,11 @@ def mk_kex(q):
     if not q.get('has_kex', True):
         return None
     party = SSH2_KexParty(list(q['enc']), list(q['mac']), list(q['comp']), [''])
-    kex = SSH2_Kex(OutputBuffer(), b'\0' * 16, list(q['kex']), list(q['key']), party, party, False, 0)
+    # the other direction of the same KEXINIT (client-to-server) carries different lists on purpose: policies are evaluated on the server-to-client lists,
+    # for server and client policies alike, and must not look at these
+    cparty = SSH2_KexParty(q.get('enc_c', ['c2s-only-cipher@example.org'] + list(reversed(q['enc']))[:2]), q.get('mac_c', ['c2s-only-mac@example.org'] + list(reversed(q['mac']))[:1]),
+                           q.get('comp_c', ['zlib', 'c2s-only']), [''])
+    kex = SSH2_Kex(OutputBuffer(), b'\0' * 16, list(q['kex']), list(q['key']), cparty, party, False, 0)
     for k, v in q['host_keys'].items():
         kex.set_host_key(k, b'blob', v['hostkey_size'], v.get('ca_key_type', ''), v.get('ca_key_size', 0))
     for k, v in q['dh'].items():
